@@ -106,3 +106,22 @@ Definition blockwise_case_ok (c : list Z * list Z * list Z) : bool :=
 Definition cohorts_case_ok (c : list Z * list Z * Z * bool * list Z * list Z) : bool :=
   let '(force, oldchunks, chunksize, ign, labels, impl) := c in
   list_z_eqb (cohort_chunks force oldchunks chunksize ign labels) impl.
+
+(* ---- cohort planner cases (K2) ---- *)
+From Flox Require Import Cohorts.
+Definition method_code (m : method) : Z := match m with Blockwise => 0 | Cohorts => 1 | MapReduce => 2 end.
+Fixpoint cohorts_eqb (a b : list (list Z * list Z)) : bool :=
+  match a, b with
+  | [], [] => true
+  | (k, v) :: a', (k', v') :: b' => list_z_eqb k k' && list_z_eqb v v' && cohorts_eqb a' b'
+  | _, _ => false
+  end.
+(* (blocks, nlabels, all_size_one, merge, impl: None = AssertionError | Some (method code, cohorts)) *)
+Definition planner_case_ok
+  (c : list (list Z) * nat * bool * bool * option (Z * list (list Z * list Z))) : bool :=
+  let '(blocks, nlabels, one, merge, impl) := c in
+  match find_group_cohorts blocks nlabels one merge, impl with
+  | None, None => true
+  | Some (m, cs), Some (mi, ci) => (method_code m =? mi) && cohorts_eqb cs ci
+  | _, _ => false
+  end.
